@@ -37,7 +37,9 @@ class An:
         return self.cfg.line(b, si)
 
     def loc(self, b, si=None):
-        return '%s:%d' % (self.body['file'], self.line(b, si))
+        blk = self.blocks[b]
+        x = blk['t'] if (si is None or si >= len(blk['s'])) else blk['s'][si]
+        return '%s:%d' % (x.get('fl') or self.body['file'], self.line(b, si))
 
     def arg(self, b, i):
         return self.flow.expr(self.blocks[b]['t']['args'][i])
